@@ -81,9 +81,34 @@ fn gen_config(rng: &mut Rng, env: &SEnv, tys: &[SType]) -> String {
     // per-path overrides
     let names: Vec<&String> = env.0.keys().collect();
     for _ in 0..rng.below(3) {
-        let path = match rng.below(6) {
+        let path = match rng.below(8) {
             0 if !names.is_empty() => (*rng.pick(&names)).clone(),
             1 => "nat".into(),
+            6 => rng.pick(&["nat8", "nat16", "nat32", "nat64", "int", "int8", "int16", "int32", "int64", "float32", "float64", "bool", "principal", "null", "reserved"]).to_string(),
+            7 => {
+                // a field label of some record/variant in scope
+                let mut labels = Vec::new();
+                for t in env.0.values().chain(tys.iter()) {
+                    let mut st = Vec::new();
+                    subterms(t, &mut st);
+                    for x in st {
+                        if let SType::Record(fs) | SType::Variant(fs) = x {
+                            for (l, _) in fs {
+                                if let SLabel::Named(n) = l {
+                                    if n.chars().all(|c| c.is_ascii_alphanumeric() || c == '_') && !n.is_empty() {
+                                        labels.push(n.clone());
+                                    }
+                                }
+                            }
+                        }
+                    }
+                }
+                if labels.is_empty() {
+                    "variant".into()
+                } else {
+                    rng.pick(&labels).clone()
+                }
+            }
             2 => "vec".into(),
             3 => "text".into(),
             4 => "opt".into(),
@@ -115,7 +140,16 @@ fn gen_config(rng: &mut Rng, env: &SEnv, tys: &[SType]) -> String {
             _ => s.push_str("size = 3\n"),
         }
     }
-    let _ = tys;
+    // the same literal configured for several number types at once: each position must still get
+    // a value of its own type
+    if rng.chance(1, 8) {
+        let lit = *rng.pick(&["7", "1", "0", "100"]);
+        for p in ["nat", "int", "nat8", "nat16", "nat32", "nat64", "int8", "int16", "int32", "int64"] {
+            if rng.chance(1, 2) {
+                s.push_str(&format!("[random.{p}]\nvalue = [\"{lit}\"]\n"));
+            }
+        }
+    }
     s
 }
 
@@ -153,6 +187,37 @@ pub fn generate(_prop: &str, _tier: Tier, seed: u64, run: u64) -> Sc {
             _ => fl.bytes(n),
         };
         return Sc { stack_kib: 8192, env, tys: vec![SType::name(which)], config, entropy: crate::engines::stream::hex(&entropy), cuts: Cuts::EveryPrefix, nesting_bound: Some(d + 6), through_vec: which == "VT" };
+    }
+    if knobs.chance(1, 24) {
+        // planted: one argument with many number types next to each other, and `value` lists that give
+        // the same literal to several of them (by type, and by field label across two records)
+        let mut env = SEnv::new();
+        let n = |s: &str| SLabel::Named(s.to_string());
+        env.0.insert(
+            "R".into(),
+            SType::record(vec![
+                (n("a"), SType::Prim(Prim::Nat8)),
+                (n("b"), SType::Prim(Prim::Nat16)),
+                (n("c"), SType::Prim(Prim::Int32)),
+                (n("d"), SType::Prim(Prim::Nat)),
+                (n("e"), SType::Prim(Prim::Int)),
+                (n("f"), SType::vec(SType::Prim(Prim::Nat64))),
+                (n("g"), SType::opt(SType::Prim(Prim::Int8))),
+                (n("id"), SType::Prim(Prim::Nat8)),
+                (n("sub"), SType::record(vec![(n("id"), SType::Prim(Prim::Nat64)), (n("h"), SType::Prim(Prim::Float64))])),
+            ]),
+        );
+        let lit = *knobs.pick(&["7", "1", "0", "100"]);
+        let mut config = String::from("[random]\n");
+        for p in ["nat", "int", "nat8", "nat16", "nat32", "nat64", "int8", "int32", "id"] {
+            if knobs.chance(2, 3) {
+                config.push_str(&format!("[random.{p}]\nvalue = [\"{lit}\", \"2\"]\n"));
+            }
+        }
+        let nb = *fl.pick(&[0usize, 8, 64, 256]);
+        let entropy = fl.bytes(nb);
+        let tys = if knobs.chance(1, 2) { vec![SType::name("R")] } else { vec![SType::name("R"), SType::vec(SType::name("R"))] };
+        return Sc { stack_kib: 8192, env, tys, config, entropy: crate::engines::stream::hex(&entropy), cuts: Cuts::EveryPrefix, nesting_bound: None, through_vec: false };
     }
     let mut k = TyKnobs::draw(&mut knobs);
     k.defs = knobs.range(0, 5) as usize;
